@@ -31,6 +31,7 @@ func (s *Style) pick(n int) int {
 
 var harmlessComments = []string{
 	"; a comment", ";", ";; mov 0, 1", "; x equ 5 , # $ @", ";\tfor 3", "; end", "; 1+2*(3)",
+	"; caf\u00e9 \u2615 na\u00efve \u2192 \u65e5\u672c\u8a9e",
 }
 
 // trailingRemarks stand behind something else on a line: they are remarks, whatever they
@@ -120,7 +121,24 @@ func (s *Style) renameMap(p Program) map[string]string {
 		return m
 	}
 	used := map[string]bool{}
+	var given []string
 	for _, n := range names {
+		// one name in four is spelled like an earlier one except for the case of its letters:
+		// symbols are told apart by their exact spelling
+		if len(given) > 0 && s.pick(4) == 0 {
+			g := given[s.pick(len(given))]
+			for _, c := range []string{strings.ToUpper(g), strings.ToLower(g), caseOf(g, 2)} {
+				if c != g && !used[c] && !reserved[c] && len(c) < 100 {
+					used[c] = true
+					m[n] = c
+					break
+				}
+			}
+			if m[n] != "" {
+				given = append(given, m[n])
+				continue
+			}
+		}
 		start := s.pick(len(renamePool))
 		for k := 0; k < len(renamePool); k++ {
 			c := renamePool[(start+k)%len(renamePool)]
